@@ -55,7 +55,16 @@ pub(super) fn poll_connect(
     // Already in flight? Just check state and re-park.
     if let Some(tcb) = &k.lookup(fd).expect("fd validated").tcb {
         return match tcb.state {
-            TcpState::Established => Poll::Ready(Ok(())),
+            // The handshake completed. The peer may already have sent
+            // data and its FIN (CloseWait) before this future was
+            // polled again: that is still a successful connect, the
+            // stream then yields the data and EOF.
+            TcpState::Established
+            | TcpState::FinWait1
+            | TcpState::FinWait2
+            | TcpState::CloseWait
+            | TcpState::LastAck
+            | TcpState::Closing => Poll::Ready(Ok(())),
             TcpState::SynSent | TcpState::SynReceived => {
                 park_connect(k, fd, cx);
                 Poll::Pending
@@ -63,12 +72,7 @@ pub(super) fn poll_connect(
             // Close mid-connect: SYN retx exhaustion surfaces as
             // TimedOut (Linux's ETIMEDOUT); anything else is the
             // peer RST'ing, which Linux reports as ECONNREFUSED.
-            TcpState::Closed
-            | TcpState::FinWait1
-            | TcpState::FinWait2
-            | TcpState::CloseWait
-            | TcpState::LastAck
-            | TcpState::Closing => {
+            TcpState::Closed => {
                 if tcb.timed_out {
                     Poll::Ready(Err(Error::from(ErrorKind::TimedOut)))
                 } else {
